@@ -53,8 +53,9 @@ def usage_ops_late(tier, mode, want):
 PROPS["C01"] = P(
     "step(add) stores exactly one row and commits before fan-out; step(open) replays exactly the stored "
     "messages of (app, mailbox id); every operation changes a message slot only by deleting it together "
-    "with its mailbox row and all messages of that mailbox; INV.msg_mailbox (no message outlives its mailbox)",
-    lambda tier: all_ops(tier, ["C01.", "INV.msg_mailbox", "INV.uniq_mailbox_id"]) +
+    "with its mailbox row and all messages of that mailbox; INV.msg_mailbox (no message outlives its mailbox); "
+    "MEM.M4/M5 (no connection keeps a handle to a deleted mailbox through which it could still store)",
+    lambda tier: all_ops(tier, ["C01.", "INV.msg_mailbox", "INV.uniq_mailbox_id", "MEM.M4", "MEM.M5"]) +
                  restart_tasks(tier, [(["open_add", "open_add_sweep", "open_close_other"], ["open", "openadd"]),
                                       (["any2", "any2_sweep"] + (["any3"] if tier == "thorough" else []), ["open", "openadd"])]))
 
@@ -114,10 +115,13 @@ PROPS["C12"] = P(
     "the real expire() closure (from the real makeService: real constants, real TimerService period) fired on "
     "an arbitrary INV pre-state with connections in arbitrary subscription states: every bundle with "
     "updated > now - CHANNEL_EXPIRATION_TIME or with a subscriber is unchanged (subscribed: updated := now); "
-    "claim/open/add stamp updated := when; operations aimed at one mailbox leave the others untouched; "
+    "claim/open/add stamp updated := when; operations aimed at one mailbox leave the others untouched; every "
+    "operation keeps 'has a mailbox handle <=> is registered as its subscriber' (MEM.M4/M5: what the sweep "
+    "relies on to know the subscribers); "
     "E > P and timer period == P read back from the service",
     lambda tier: [dict(ob="sweep.step", params=dict(tier=tier), want=["C12.", "MEM."])] +
-                 all_ops(tier, ["C12."], skip=("step.bind", "step.list", "step.disconnect", "step.release", "step.allocate"),
+                 all_ops(tier, ["C12.", "MEM.M4", "MEM.M5"],
+                         skip=("step.bind", "step.list", "step.disconnect", "step.release", "step.allocate"),
                          sweep_too=False))
 
 PROPS["C13"] = P(
